@@ -68,9 +68,10 @@ theorem harmonic (a b : K) :
   ring
 
 /-- the three single-shot fitters combine two weight vectors exactly by `harmonic`, pair by pair -/
-theorem fitters_use_harmonic [HasTrig K] (eps : K) (o : List (Obs K)) (a b : List K) (scale : Option K) :
+theorem fitters_use_harmonic [HasTrig K] (eps epsD : K) (o : List (Obs K)) (a b : List K) (scale : Option K) :
     fitShifts o (some a) (some b) = fitShifts o (some (List.zipWith TW.harmonic a b)) none ∧
-    fitGeneral eps o (some a) (some b) = fitGeneral eps o (some (List.zipWith TW.harmonic a b)) none ∧
+    fitGeneral eps epsD o (some a) (some b)
+      = fitGeneral eps epsD o (some (List.zipWith TW.harmonic a b)) none ∧
     fitRscale o (some a) (some b) scale = fitRscale o (some (List.zipWith TW.harmonic a b)) none scale :=
   ⟨rfl, rfl, rfl⟩
 
@@ -280,10 +281,10 @@ example :
 
 -- corrupting a zero-weight source changes nothing (shift fit on exact rationals, root-free metric)
 example :
-    (match iterLinearFitSq (K := ℚ) (1/1000000) .shift
+    (match iterLinearFitSq (K := ℚ) (1/1000000) (1/4503599627370496) .shift
             [⟨1, 0, 0, 0⟩, ⟨-1, 0, 0, 0⟩, ⟨0, 1, 0, 0⟩, ⟨5, 5, 0, 0⟩] (some [1, 1, 2, 0]) none none (some 2)
             (some 2) false,
-           iterLinearFitSq (K := ℚ) (1/1000000) .shift
+           iterLinearFitSq (K := ℚ) (1/1000000) (1/4503599627370496) .shift
             [⟨1, 0, 0, 0⟩, ⟨-1, 0, 0, 0⟩, ⟨0, 1, 0, 0⟩, ⟨1000000000000, -7, 3, 4⟩] (some [1, 1, 2, 0]) none none
             (some 2) (some 2) false with
      | .ok r1, .ok r2 => r1.fitmask == r2.fitmask && r1.fitmask == [true, true, true, false]
